@@ -281,7 +281,7 @@ func (e *Engine) buildScript(decls, facts []string, goal string, negate bool) st
 	for _, id := range specOrder {
 		specText.WriteString(e.specAxiomsSMT(id))
 	}
-	if len(needLits) > 0 || strings.Contains(body, "str.") || strings.Contains(body, " Str") || strings.Contains(specText.String(), "str.") || strings.Contains(specText.String(), " Str") {
+	if len(needLits) > 0 || strings.Contains(body, "gs.") || strings.Contains(body, " Str") || strings.Contains(specText.String(), "gs.") || strings.Contains(specText.String(), " Str") {
 		needStr = true
 	}
 	var hdr strings.Builder
@@ -314,15 +314,15 @@ func (e *Engine) literal(s string) string {
 		return n
 	}
 	if s == "" {
-		e.lits[s] = "str.empty"
-		return "str.empty"
+		e.lits[s] = "gs.empty"
+		return "gs.empty"
 	}
 	n := fmt.Sprintf("lit_%d", len(e.lits))
 	e.lits[s] = n
-	defs := []string{fmt.Sprintf("(declare-const %s Str) ; %q", n, truncate(s, 40)), fmt.Sprintf("(assert (= (str.len %s) %d))", n, len(s))}
+	defs := []string{fmt.Sprintf("(declare-const %s Str) ; %q", n, truncate(s, 40)), fmt.Sprintf("(assert (= (gs.len %s) %d))", n, len(s))}
 	var parts []string
 	for i := 0; i < len(s); i++ {
-		parts = append(parts, fmt.Sprintf("(= (str.at %s %d) %d)", n, i, s[i]))
+		parts = append(parts, fmt.Sprintf("(= (gs.at %s %d) %d)", n, i, s[i]))
 	}
 	defs = append(defs, "(assert "+and(parts...)+")")
 	e.litDefs[n] = defs
